@@ -745,6 +745,8 @@ func (c *SpecCtx) call(e *ast.CallExpr) Value {
 			parts = append(parts, Mul(IntC(pow2(i)), App("bit", SInt, x, IntI(int64(i)))))
 		}
 		return Add(parts...)
+	case "xor8":
+		return Xor8(c.term(e.Args[0]), c.term(e.Args[1]))
 	case "rndblock":
 		return rndBlock(c.term(e.Args[0]))
 	case "hexvalid":
